@@ -433,6 +433,10 @@ class PhaseField(_Simu):
             oldAndNewDamage[:, 0] = old_damage
             oldAndNewDamage[:, 1] = d_np1
             d_np1 = np.max(oldAndNewDamage, 1)
+            # the irreversible damage is the state of the simulation (the one Save_Iter stores),
+            # not only the value handed back
+            self._Set_solutions(self.ProblemTypes.damage, d_np1)
+            self.__updatedDisplacement = False
 
         else:
             raise Exception("Unknown phase field solver.")
